@@ -22,6 +22,8 @@ ASSUMPTIONS = [
     "(that is where faults and aborts are injected)",
     "requests are closed (directories listed with their files, or expanded), as the property states",
     "in-process abort (BaseException) models a process kill for the purposes of store contents",
+    "after an external wipe of the destination a surviving index is re-validated only by requests that name a "
+    "directory (C12); file-only requests are not judged for completeness in that situation",
 ]
 
 
@@ -91,7 +93,23 @@ def run_one(case, ctx):
                         viols.append(Viol("dir-not-reported-failed",
                                           f"directory {doid} withheld after a failed file but not in result.failed"))
         # retry completes the destination
-        if o.retry is not None:
+        if o.via_push and len(o.push_counts) == 2 and not o.trusting_stale_index:
+            src_has = set(o.bytes) - o.src_removed
+            excused = {doid for doid, kids in o.dir_children.items() if kids - src_has - set(o.dst_final)}
+            if o.push_counts[1][1] and not (excused & o.requested):
+                viols.append(Viol("retry-failed", f"fault-free retry push reported {o.push_counts[1][1]} failures"))
+            for oid in sorted(o.requested_expanded):
+                if oid in o.dst_final or oid not in src_has:
+                    continue
+                if oid in o.dir_children and (o.dir_children[oid] - src_has - set(o.dst_final)):
+                    continue
+                viols.append(Viol("retry-incomplete", f"{oid} still absent after a fault-free retry push"))
+                break
+            # a failed listed file => the push must report a failure
+            lost = [k for _, k in o.inj.faulted if k not in o.dst_after]
+            if lost and o.push_counts[0][1] == 0:
+                viols.append(Viol("push-failure-unreported", f"uploads of {lost} failed but push() reported 0 failed"))
+        if o.retry is not None and not o.trusting_stale_index:
             src_has = set(o.bytes) - o.src_removed
             # a directory with a file missing on both sides is legitimately withheld (and reported failed)
             excused = {doid for doid, kids in o.dir_children.items() if kids - src_has - set(o.dst_final)}
@@ -106,8 +124,11 @@ def run_one(case, ctx):
                 viols.append(Viol("retry-incomplete", f"{oid} still absent after a fault-free retry"))
                 break
         # index must not vouch for objects that are not there
-        for label, idx, cont in (("after", o.index_after, o.dst_after), ("retry", o.index_final, o.dst_final)):
-            if idx:
+        for label, idx, cont, exc in (("after", o.index_after, o.dst_after, o.raised),
+                                      ("retry", o.index_final, o.dst_final, o.retry_raised)):
+            if exc is not None:
+                continue  # the call did not get as far as consulting the index (abort / unloadable directory)
+            if idx and not o.trusting_stale_index:
                 ghost = sorted(set(idx) - set(cont))
                 if ghost:
                     viols.append(Viol(f"index-ghost-{label}", f"destination index holds {ghost} absent from the store"))
